@@ -6,10 +6,12 @@ package field
 import (
 	"bytes"
 	"encoding/json"
+	"fmt"
 	"math/big"
 	"math/rand"
 	"os"
 	"strconv"
+	"strings"
 	"testing"
 )
 
@@ -42,9 +44,34 @@ func TestVerifBattery(t *testing.T) {
 			continue
 		}
 		seed, _ := strconv.Atoi(c.Op)
+		on := func(names ...string) bool {
+			if c.B == "" {
+				return true
+			}
+			for _, n := range names {
+				for _, w := range strings.Split(c.B, ",") {
+					if w == n {
+						return true
+					}
+				}
+			}
+			return false
+		}
 		rng := rand.New(rand.NewSource(int64(seed) + 1))
 		one := big.NewInt(1)
-		bad := func(format string, a ...interface{}) { t.Errorf("MISMATCH kind=field-battery: "+format, a...) }
+		bad := func(format string, a ...interface{}) {
+			msg := fmt.Sprintf(format, a...)
+			name := msg
+			for i, r := range msg {
+				if !(r >= 'a' && r <= 'z' || r >= 'A' && r <= 'Z' || r >= '0' && r <= '9') {
+					name = msg[:i]
+					break
+				}
+			}
+			if on(name) { // only the methods the embedding check relies on (all of them for C12 itself)
+				t.Errorf("MISMATCH kind=field-battery: %s", msg)
+			}
+		}
 		vals := []*big.Int{big.NewInt(0), one, big.NewInt(2), new(big.Int).Sub(vM, one), new(big.Int).Sub(vM, big.NewInt(2)),
 			new(big.Int).Lsh(one, 64), new(big.Int).Lsh(one, 128), new(big.Int).Lsh(one, 192), new(big.Int).Lsh(one, 255),
 			new(big.Int).Sub(new(big.Int).Lsh(one, 64), one), big.NewInt(11), big.NewInt(7)}
@@ -193,7 +220,9 @@ func vFieldLimbs(t *testing.T, c vCase) {
 	la, lb := vLimbsOf(c.A), vLimbsOf(c.B)
 	ea, eb := &Element{E: la}, &Element{E: lb}
 	a, b := val(la), val(lb)
-	bad := func(format string, x ...interface{}) { t.Errorf("MISMATCH kind=field-limbs op="+c.Op+": "+format, x...) }
+	bad := func(format string, x ...interface{}) {
+		t.Errorf("MISMATCH kind=field-limbs op="+c.Op+": "+format, x...)
+	}
 	res := New()
 	var want *big.Int
 	switch c.Op {
